@@ -27,9 +27,14 @@ impl<T> From<T> for ArcIntern<T> {
 impl<T> AsRef<T> for ArcIntern<T> {
     fn as_ref(&self) -> (r: &T) ensures *r == *self.inner { &*self.inner }
 }
+// `==` on ArcIntern compares pointers, i.e. (hash-consing) the interned values: assumed to hold only for equal values
+impl<T: PartialEq> vstd::std_specs::cmp::PartialEqSpecImpl for ArcIntern<T> {
+    open spec fn obeys_eq_spec() -> bool { true }
+    open spec fn eq_spec(&self, other: &Self) -> bool { *self == *other }
+}
 impl<T: PartialEq> PartialEq for ArcIntern<T> {
     #[verifier::external_body]
-    fn eq(&self, other: &Self) -> bool { unimplemented!() }
+    fn eq(&self, other: &Self) -> (r: bool) ensures r == (*self == *other) { unimplemented!() }
 }
 impl<T: Eq> Eq for ArcIntern<T> {}
 impl<T: Hash> Hash for ArcIntern<T> {
@@ -56,7 +61,7 @@ pub uninterp spec fn c_cos(a: Complex64) -> Complex64;
 pub uninterp spec fn c_exp(a: Complex64) -> Complex64;
 pub uninterp spec fn c_sqrt(a: Complex64) -> Complex64;
 impl Complex64 {
-    pub fn new(re: f64, im: f64) -> (r: Self) ensures r == (Complex64 { re, im }) { Complex64 { re, im } }
+    pub const fn new(re: f64, im: f64) -> (r: Self) ensures r == (Complex64 { re, im }) { Complex64 { re, im } }
     #[verifier::external_body] pub fn powc(self, e: Complex64) -> (r: Complex64) ensures r == c_powc(self, e) { unimplemented!() }
     #[verifier::external_body] pub fn sin(self) -> (r: Complex64) ensures r == c_sin(self) { unimplemented!() }
     #[verifier::external_body] pub fn cos(self) -> (r: Complex64) ensures r == c_cos(self) { unimplemented!() }
